@@ -48,6 +48,8 @@ type SkelSpec struct {
 }
 
 type Spec struct {
+	Module  string     `json:"module"`  // output file Gen/<Module>.lean
+	Imports []string   `json:"imports"` // other Gen modules this one refers to
 	Consts []ConstSpec `json:"consts"`
 	Preds  []PredSpec  `json:"preds"`
 	Skels  []SkelSpec  `json:"skels"`
@@ -637,27 +639,17 @@ func writeIfChanged(path, content string) {
 	fmt.Printf("extract: wrote %s\n", path)
 }
 
-func main() {
-	repo := flag.String("repo", "/repo", "repository root")
-	specPath := flag.String("spec", "spec.json", "extraction spec")
-	outDir := flag.String("out", "", "output directory (…/TunnoxModel/Gen)")
-	flag.Parse()
-	raw, err := os.ReadFile(*specPath)
-	if err != nil {
-		die("%v", err)
-	}
-	var spec Spec
-	if err := json.Unmarshal(raw, &spec); err != nil {
-		die("spec: %v", err)
-	}
-
+func genModule(repo string, spec *Spec, outDir string) {
 	var cs strings.Builder
-	cs.WriteString("/- GENERATED from the Go source by /verif/extract on every run. Do not edit. -/\nnamespace Gen\n\n")
+	cs.WriteString("/- GENERATED from the Go source by /verif/extract on every run. Do not edit. -/\nimport TunnoxModel.Model.PredPrelude\n")
+	for _, im := range spec.Imports {
+		cs.WriteString("import TunnoxModel.Gen." + im + "\n")
+	}
+	cs.WriteString("open Tunnox.PredPrelude\nnamespace Gen\n\n")
 	for _, c := range spec.Consts {
-		p := loadPkg(*repo, c.Dir)
+		p := loadPkg(repo, c.Dir)
 		fmt.Fprintf(&cs, "namespace %s\n", c.NS)
-		names := append([]string{}, c.Names...)
-		for _, n := range names {
+		for _, n := range c.Names {
 			d, ok := p.consts[n]
 			if !ok {
 				die("constant %s not found in %s", n, c.Dir)
@@ -676,23 +668,49 @@ func main() {
 		}
 		fmt.Fprintf(&cs, "end %s\n\n", c.NS)
 	}
-	cs.WriteString("end Gen\n")
-	writeIfChanged(filepath.Join(*outDir, "Consts.lean"), cs.String())
-
-	var ps strings.Builder
-	ps.WriteString("/- GENERATED from the Go source by /verif/extract on every run. Do not edit. -/\nimport TunnoxModel.Gen.Consts\nimport TunnoxModel.Model.PredPrelude\nopen Tunnox.PredPrelude\nnamespace Gen\n\n")
 	for i := range spec.Preds {
-		genPred(*repo, &spec.Preds[i], &ps)
+		genPred(repo, &spec.Preds[i], &cs)
 	}
-	ps.WriteString("end Gen\n")
-	writeIfChanged(filepath.Join(*outDir, "Pred.lean"), ps.String())
+	if len(spec.Skels) > 0 {
+		cs.WriteString("namespace Skel\n")
+		sort.SliceStable(spec.Skels, func(i, j int) bool { return spec.Skels[i].Name < spec.Skels[j].Name })
+		for i := range spec.Skels {
+			genSkel(repo, &spec.Skels[i], &cs)
+		}
+		cs.WriteString("end Skel\n\n")
+	}
+	cs.WriteString("end Gen\n")
+	writeIfChanged(filepath.Join(outDir, spec.Module+".lean"), cs.String())
+}
 
-	var sk strings.Builder
-	sk.WriteString("/- GENERATED from the Go source by /verif/extract on every run. Do not edit. -/\nnamespace Gen.Skel\n\n")
-	sort.SliceStable(spec.Skels, func(i, j int) bool { return spec.Skels[i].Name < spec.Skels[j].Name })
-	for i := range spec.Skels {
-		genSkel(*repo, &spec.Skels[i], &sk)
+func main() {
+	repo := flag.String("repo", "/repo", "repository root")
+	specDir := flag.String("specs", "spec.d", "directory of extraction specs (*.json), one Gen module each")
+	outDir := flag.String("out", "", "output directory (…/TunnoxModel/Gen)")
+	only := flag.String("only", "", "only this module")
+	flag.Parse()
+	ents, err := os.ReadDir(*specDir)
+	if err != nil {
+		die("%v", err)
 	}
-	sk.WriteString("\nend Gen.Skel\n")
-	writeIfChanged(filepath.Join(*outDir, "Skel.lean"), sk.String())
+	for _, e := range ents {
+		if !strings.HasSuffix(e.Name(), ".json") {
+			continue
+		}
+		raw, err := os.ReadFile(filepath.Join(*specDir, e.Name()))
+		if err != nil {
+			die("%v", err)
+		}
+		var spec Spec
+		if err := json.Unmarshal(raw, &spec); err != nil {
+			die("spec %s: %v", e.Name(), err)
+		}
+		if spec.Module == "" {
+			die("spec %s: no module name", e.Name())
+		}
+		if *only != "" && *only != spec.Module {
+			continue
+		}
+		genModule(*repo, &spec, *outDir)
+	}
 }
